@@ -87,6 +87,11 @@ def repo_hash():
 
 def build_go(target, pkg, tags='verif', race=False):
     out = os.path.join(BIN, target)
+    if target.endswith('.test'):
+        cmd = [GO, 'test', '-c', '-tags', tags, '-o', out, './' + target[:-5]]
+        if race:
+            cmd.insert(3, '-race')
+        return run(cmd, cwd=HARNESS, env=GOENV, timeout=1500)
     cmd = [GO, 'build', '-tags', tags]
     if race:
         cmd.append('-race')
@@ -155,8 +160,8 @@ def prepare(need_go=('unit',), quiet=False):
                 info['extract_ok'] = False
         # Go harness binaries against /repo's working tree, hooks on
         for target in need_go:
-            race = target.endswith('_race')
-            pkg = './' + (target[:-5] if race else target)
+            race = '_race' in target
+            pkg = './' + target.replace('_race', '')
             rc, o, dt = build_go(target, pkg, race=race)
             if rc != 0:
                 info['go_ok'] = False
@@ -262,7 +267,7 @@ CODE_TEXT = {
     202: 'caller got success although the handler never returned OK', 203: 'Trailer() differs from the handler trailers at the terminal result',
     204: 'grpc.Trailer target differs from the handler trailers', 206: 'Header() differs from the handler headers', 207: 'grpc.Header target differs',
     208: 'Header() blocked although a response message had been received', 209: 'handler saw request metadata different from what the caller attached',
-    210: 'a later terminal result differs from the first', 301: 'tunnel ended / failed to start without any tunnel-level cause',
+    210: 'a later terminal result differs from the first', 211: 'caller got a successful (final) response although the handler did not return OK', 301: 'tunnel ended / failed to start without any tunnel-level cause',
     401: 'a call is still pending after the tunnel ended', 402: 'Done() not closed after the tunnel ended', 403: 'Err() not nil after a clean close',
     404: 'Err() nil after a failure', 405: 'RPC started on a finished tunnel did not fail immediately', 406: 'Serve did not return after the tunnel ended',
     602: 'sender has more un-credited bytes outstanding than the window', 603: 'credit granted exceeds data delivered',
@@ -319,9 +324,25 @@ def run_sim(family, seed, count, scenario_file=None, keep_trace=False):
     else:
         env['SIM_FAMILY'] = family
     t0 = time.time()
-    rc, o, dt = run([os.path.join(BIN, 'sim.test'), '-test.run', 'TestSim', '-test.timeout', '3000s'], env=env, timeout=3300)
+    # the simulator leaves with exit 3 when its watchdog sees a scenario that never settles (a
+    # lock-level deadlock keeps the bubble spinning); resume after it, a few times at most
+    parts, skip, hangs, o, dt = [], 0, 0, '', 0.0
+    while True:
+        env['SIM_SKIP'] = str(skip)
+        rc, o, dt1 = run([os.path.join(BIN, 'sim.test'), '-test.run', 'TestSim', '-test.timeout', '3000s'], env=env, timeout=3300)
+        dt += dt1
+        if os.path.exists(trace):
+            txt = open(trace, errors='replace').read()
+            parts.append(txt)
+            skip += sum(1 for l in txt.split('\n') if l.startswith('X '))
+        if rc == 3 and hangs < 4:
+            hangs += 1
+            continue
+        break
+    if parts:
+        open(trace, 'w').write(''.join(parts))
     res = {'family': family, 'seed': seed, 'count': count, 'scenarios': 0, 'events': 0, 'failures': [], 'abnormal': [],
-           'go_s': round(dt, 1), 'error': None, 'cached': False, 'samples': [], 'actions': {}, 'configs': {}}
+           'go_s': round(dt, 1), 'error': None, 'cached': False, 'samples': [], 'actions': {}, 'configs': {}, 'hangs': hangs}
     if not os.path.exists(trace):
         res['error'] = 'simulation produced no trace (exit %d): %s' % (rc, o[-1500:])
         return res
@@ -346,8 +367,14 @@ def run_sim(family, seed, count, scenario_file=None, keep_trace=False):
     # input distribution: action kinds and configurations, a few sample lines
     acts, cfgs = {}, {}
     nsample = 0
+    ended = {}
+    cur = None
     with open(trace, errors='replace') as fh:
         for line in fh:
+            if line.startswith('S '):
+                cur = line.split(' ', 2)[1]
+            elif line.startswith('E ') and ' stim kind=' in line and any(k in line for k in ('kind=fail', 'kind=chclose', 'kind=ctxend', 'kind=stop', 'kind=rawend')):
+                ended[cur] = True
             if line.startswith('A '):
                 k = line.split(' ', 3)[2].strip()
                 acts[k] = acts.get(k, 0) + 1
@@ -359,6 +386,8 @@ def run_sim(family, seed, count, scenario_file=None, keep_trace=False):
                     res['samples'].append(line.strip()[:220])
                 nsample += 1
     res['actions'], res['configs'] = acts, cfgs
+    for a in res['abnormal']:
+        a['after_tunnel_end'] = bool(ended.get(a['scenario']))
     res['samples'] = res['samples'][:4]
     if 'FAIL' in o and 'panic' in o:
         res['abnormal'].append({'scenario': '?', 'status': 'test binary reported: ' + o[-600:]})
@@ -445,6 +474,11 @@ class Verdict:
                                       'scenario': f['scenario'], 'code': f['code'], 'meaning': CODE_TEXT.get(f['code'], '?'),
                                       'action': f['act'], 'a': f['a'], 'b': f['b'], 'seed': r['seed'], 'trace': r.get('trace')})
         for a in r['abnormal']:
+            rel = ['C09', 'C15'] if a['status'].startswith('panic') else \
+                  ((['C03', 'C05', 'C15'] + (['C04'] if a.get('after_tunnel_end') else [])) if a['status'].startswith('hang')
+                   else (['C14'] + (['C04'] if a.get('after_tunnel_end') else [])))
+            if self.pid not in rel:
+                continue
             self.concrete.append({'key': 'M2:%s:abnormal' % r['family'], 'kfkey': 'abnormal', 'where': 'M2 ' + r['family'],
                                   'scenario': a['scenario'], 'meaning': 'scenario ended abnormally (panic, or goroutines of the bubble left blocked): ' + a['status'][:300],
                                   'seed': r['seed'], 'trace': r.get('trace')})
